@@ -404,7 +404,7 @@ func (d *deriver) run(formatter string) (*Derived, error) {
 	}
 	// an option this checker has no environment for is not fixed at its zero value: whatever the generator
 	// decides on it is explored both ways (the path conditions name the field)
-	if st, ok := tConfig.Underlying().(*types.Struct); ok {
+	if st, ok := tConfig.Underlying().(*types.Struct); ok && d.model.UnknownOptions {
 		for i := 0; i < st.NumFields(); i++ {
 			f := st.Field(i)
 			switch f.Name() {
